@@ -257,3 +257,80 @@ def c04_ringitem_delete(ctx, v):
     same id, other hash, included (same obligation as C03 c03_m_ringitem_delete)."""
     from . import obl_c03
     obl_c03.c03_m_ringitem_delete(ctx, v)
+
+
+def c04_failure_cleanup_spares_ledger(ctx, v):
+    """Blockchain::add_block_failure — the only clean-up run when an offered block is refused. A
+    refused block was never applied to the ledger, so its inputs are still live outputs of other
+    blocks: on every path the clean-up hands the spendable set (`utxoset`) to no callee mutably
+    (no Block::delete / on_chain_reorganization / slip deletion on the refused block) and takes no
+    write lock on the wallet; it does remove the block from the chain index
+    (BlockRing::delete_block with the block's own id and hash).  Real MIR of the coroutine; the
+    stored block is an arbitrary block; callees are not entered."""
+    ex = ctx.executor(loop_bound=3, inline="auto", max_paths=2000,
+                      no_inline=[r"Block::", r"BlockRing::", r"Mempool::", r"Wallet::", r"Slip::", r"Transaction::", r"add_block_transactions_back", r"fmt", r"to_hex"])
+    ex.pure = [r".*"]
+    block = ctx.mk_struct(ex, "Block", "refused")
+    from .models import mk_some
+    utx_i = ctx.field_index("Blockchain", "utxoset")
+    wl_i = ctx.field_index("Blockchain", "wallet_lock")
+    chain = ctx.mk_struct(ex, "Blockchain", "blockchain", utxoset=S.MapV("utxoset", None) if hasattr(S, "MapV") else S.Opaque("utxoset", "UtxoSet"))
+    ccell = S.Cell(chain)
+
+    def hook(ex_, st, callee, args, dty):
+        if re.search(r"(?:AHashMap|HashMap)::<\[u8; 32\], Block[^>]*>::remove::", callee):
+            st.events.append(("call", callee, args, None))
+            return mk_some(dty, block)
+        return None
+    ex.on_call = hook
+    pool = ctx.mk_struct(ex, "Mempool", "mempool")
+    h = ex.fresh_value("[u8; 32]", "refused.hash.arg")
+    body, co = L.coroutine(ctx, ex, r"blockchain::<impl at [^>]*>::add_block_failure",
+                           [S.Ref(ccell, (), True), S.Ref(S.Cell(h), ()), S.Ref(S.Cell(pool), (), True)])
+    outs = ex.run(body, [S.Ref(S.Cell(co), (), True), S.Opaque("cx", "Context")], S.State())
+    v.paths += len(outs)
+    n = cleaned = 0
+    cc = [ccell]
+
+    def into(a, idx):
+        return isinstance(a, S.Ref) and a.cell is cc[0] and a.path and a.path[0][0] == "f" and a.path[0][1] == idx
+    for o in outs:
+        if o.kind in ("unsupported", "unwound", "path-limit"):
+            return v.undecided("%s %s" % (o.kind, o.info))
+        if o.kind == "panic":
+            L.report_panic(v, ex, o, "add_block_failure panics: %s" % o.info)
+            continue
+        if o.kind != "return" or not ex.feasible(o.pc):
+            continue
+        n += 1
+        cref = L.coroutine_arg_after(ex, o, "Blockchain", 0)
+        if cref is None:
+            return v.undecided("the chain state is not found in the coroutine's state")
+        cc[0] = cref.cell
+        calls = [e for e in o.events if e[0] == "call"]
+        import os
+        if os.environ.get("C04_DEBUG"):
+            print([re.sub(r"<impl at [^>]*>", "", e[1])[-60:] for e in calls], L.trace_text(o, 30))
+            for e in calls[-2:]:
+                print(e[1][-30:], [(type(a).__name__, getattr(a, "path", None), getattr(a, "cell", None) is cc[0], getattr(a, "mut", None)) for a in e[2]])
+        for e in calls:
+            v.queries += 1
+            short = re.sub(r"<impl at [^>]*>", "", e[1])[-60:]
+            if any(into(a, utx_i) and getattr(a, "mut", False) for a in e[2]):
+                v.fail("cleaning up after a refused block hands the spendable set mutably to %s (a refused block was never applied: touching the ledger for it removes or re-creates other blocks' outputs)" % short,
+                       dict(path=L.trace_text(o, 10)))
+            if re.search(r"RwLock<Wallet>>::write$|RwLock::<Wallet>::write$", e[1]) or (re.search(r"::write$", e[1]) and any(into(a, wl_i) for a in e[2])):
+                v.fail("cleaning up after a refused block takes a write lock on the wallet (%s)" % short, dict(path=L.trace_text(o, 10)))
+        dels = [e for e in calls if re.search(r"BlockRing::delete_block$", e[1])]
+        if dels:
+            cleaned += 1
+            a = dels[0][2]
+            from .models import value_eq
+            bid, bh = block.fields[ctx.field_index("Block", "id")], block.fields[ctx.field_index("Block", "hash")]
+            v.queries += 1
+            if not (isinstance(a[1], S.I) and not ex.feasible(o.pc, a[1].bv != bid.bv) and not ex.feasible(o.pc, z3.Not(value_eq(ex, a[2], bh)))):
+                v.fail("the chain-index entry removed for a refused block is not the refused block's own (id, hash)")
+    if not n or not cleaned:
+        return v.undecided("no path through the clean-up was explored (%d returning, %d with the index clean-up)" % (n, cleaned))
+    v.covers_total += 1
+    v.covers_sat += 1
